@@ -265,23 +265,31 @@ Definition run_op (op : pull_opk) (route : bytes) (s : N) : N * N := (299, s + 1
 Definition router (m p : bytes) (s : N) : N * N * bool := (299, s, true).
 Definition b2n (x : bool) : N := if x then 1 else 0.
 Definition nil_l (l : list bytes) : bool := match l with [] => true | _ => false end.
+(* one number per case: decimal digits 1 sss c a o m  (status, calls, authorized, open, any-value) *)
+Definition pack (l : list N) : N :=
+  match l with
+  | [st; calls; a; o; m] => ((((1000 + st) * 10 + N.min calls 9) * 10 + a) * 10 + o) * 10 + m
+  | _ => 0
+  end.
 (* status; store calls; authorize verdict (2 = not reached); effective allowlist empty (open) *)
-Definition ev_pull (c : auth_cfg) (prefix method path : bytes) (auth : list bytes) : list N :=
-  match mount_prefix prefix path with
-  | None => [404; 0; 2; 2]
+Definition ev_pull (c : auth_cfg) (prefix method path : bytes) (auth : list bytes) : N :=
+  pack match mount_prefix prefix path with
+  | None => [404; 0; 2; 2; 0]
   | Some p => let o := pull_serve N run_op c method p auth 0 in
               [o_status N o; N.of_nat (List.length (o_calls N o)); b2n (authorize_pull c p auth);
-               b2n (nil_l (allow_norm (effective c (pull_endpoint p))))]
+               b2n (nil_l (allow_norm (effective c (pull_endpoint p))));
+               b2n (existsb (fun v => http_bearer_ok (effective c (pull_endpoint p)) [v]) auth)]
   end.
-Definition ev_worker (c : auth_cfg) (op : pull_opk) (ep : bytes) (pre : bool) (md : option (list bytes)) : list N :=
+Definition ev_worker (c : auth_cfg) (op : pull_opk) (ep : bytes) (pre : bool) (md : option (list bytes)) : N :=
   let o := worker_call N run_op c op ep pre md 0 in
-  [o_status N o; N.of_nat (List.length (o_calls N o)); b2n (authorize_worker c (trim ep) md);
-   b2n (nil_l (allow_norm (effective c (trim ep))))].
-Definition ev_admin (c : auth_cfg) (prefix method path : bytes) (auth : list bytes) : list N :=
-  match mount_prefix prefix path with
-  | None => [404; 0; 2; 2]
+  pack [o_status N o; N.of_nat (List.length (o_calls N o)); b2n (authorize_worker c (trim ep) md);
+   b2n (nil_l (allow_norm (effective c (trim ep)))); 0].
+Definition ev_admin (c : auth_cfg) (prefix method path : bytes) (auth : list bytes) : N :=
+  pack match mount_prefix prefix path with
+  | None => [404; 0; 2; 2; 0]
   | Some p => let o := admin_serve N router c method p auth 0 in
-              [ad_status N o; b2n (ad_routed N o); b2n (authorize_admin c auth); b2n (nil_l (allow_norm (a_admin c)))]
+              [ad_status N o; b2n (ad_routed N o); b2n (authorize_admin c auth); b2n (nil_l (allow_norm (a_admin c)));
+               b2n (existsb (fun v => http_bearer_ok (a_admin c) [v]) auth)]
   end.
 """
 
@@ -396,12 +404,12 @@ def main(ctx, replay):
             for rq, row in zip(all_reqs[ci], co["rows"]):
                 if rq["kind"] == "pull":
                     if not row["seen"]:
-                        items.append("[0; 0; 2; 2]")
+                        items.append("pack [0; 0; 2; 2; 0]")
                     else:
                         items.append("ev_pull cfg%d %s %s %s %s" % (ci, L.cb(L.hx(co["pull_prefix"])), L.cb(rq["method"]), L.cb(row["seen_path"]), L.cbs(row["seen_auth"])))
                 elif rq["kind"] == "admin":
                     if not row["seen"]:
-                        items.append("[0; 0; 2; 2]")
+                        items.append("pack [0; 0; 2; 2; 0]")
                     else:
                         items.append("ev_admin cfg%d %s %s %s %s" % (ci, L.cb(L.hx(co["admin_prefix"])), L.cb(rq["method"]), L.cb(row["seen_path"]), L.cbs(row["seen_auth"])))
                 else:
@@ -426,7 +434,13 @@ def main(ctx, replay):
             rows = L.parse_nested(out, "out%d" % ci)
             if rows is None or len(rows) != len(all_reqs[ci]):
                 raise RuntimeError("could not parse model output out%d" % ci)
-            model[ci] = rows
+            dec = []
+            for v in rows:
+                d = str(v)
+                if len(d) != 8:
+                    raise RuntimeError("bad packed model row %r" % v)
+                dec.append([int(d[1:4]), int(d[4]), int(d[5]), int(d[6]), int(d[7])])
+            model[ci] = dec
     rc, outc = results[-1]
     mcompile = L.parse_nested(outc, "outc") if rc == 0 else None
     if mcompile is None and not proof_broken:
@@ -466,7 +480,7 @@ def main(ctx, replay):
             if row.get("err"):
                 col.add("transport-error:" + kind, size, "request could not be completed: " + row["err"], {"kind": "request", "case": case})
                 continue
-            mst, mcalls, mauth, mopen = m
+            mst, mcalls, mauth, mopen, many = m
             if c["shared"] and rq["kind"] in ("pull", "admin") and row["seen"]:
                 # sharedPrefixMux in front of the mounted handlers
                 p = L.unhx(row["seen_path"]).decode("latin-1")
@@ -494,6 +508,11 @@ def main(ctx, replay):
             ran_model = mst == 299
             problems, key = [], None
             # P_C11 on what the implementation did
+            if mauth == 0 and many == 1 and len(rq["auth"]) > 1 and row["status"] not in (401, 405):
+                # several Authorization values, a later one is valid: the code looks at the first only; a version that
+                # honours any value still acts only for a caller carrying a valid token - both outcomes satisfy C11
+                dist["later_value_valid_accepted"] = dist.get("later_value_valid_accepted", 0) + 1
+                continue
             if mauth == 0:
                 dist["unauthorized"] += 1
                 nontrivial.add((ci, ri))
@@ -556,7 +575,7 @@ def main(ctx, replay):
                      "observed": {"compile_ok": got, "errors": co.get("errors")}, "expected": {"compile_ok": want}})
         elif not got:
             nontrivial.add(("compile", i))
-    col.flush(ctx)
+    col.flush(ctx, priority=lambda k: 0 if k.startswith(("unauthorized-accepted", "compiled-open-route", "loader-empty-secret")) else 1)
 
     # ---- byte functions the bearer model relies on
     sp = [b" ", b"\t", b"\n", b"\xc2\xa0", b"\xe2\x80\x83", b"Bearer ", b"bearer ", b"tok", b"\xc2", b"\x85", b"x", b"\xe3\x80\x80", b"\r", b"\xe2\x80"]
